@@ -176,6 +176,21 @@ func genName(r *run.Rand, used map[string]bool) string {
 	}
 }
 
+// dissect token names are free text up to the closing brace: they become JSON member names as they are
+var hostileNames = []string{`a"b`, `c\d`, `"`, `\`, `q"`, `\"`, `a b`, `é`, "tab\tx", "x\x01y", "日本", `a/b`, `a.b`, `na me "quoted"`, `back\\slash`, "nl\x0b", `<&>`, `'`, "\u2028"}
+
+func genDissectName(r *run.Rand, used map[string]bool) string {
+	if r.Intn(3) == 0 {
+		for try := 0; try < 8; try++ {
+			if n := r.Pick(hostileNames); !used[n] {
+				used[n] = true
+				return n
+			}
+		}
+	}
+	return genName(r, used)
+}
+
 var delimiters = []byte("|;:#@~=&/! ,\t")
 
 func classEsc(d byte) string { return fmt.Sprintf(`[^\x%02x]`, d) }
@@ -301,11 +316,11 @@ func genDissectCase(r *run.Rand, o genOpts, maxNamed, nLines int) (pattern strin
 			sb.WriteByte(d)
 		}
 		if perm[i] < nNamed {
-			sb.WriteString("%{" + genName(r, used) + "}")
+			sb.WriteString("%{" + genDissectName(r, used) + "}")
 		} else if r.Bool() {
 			sb.WriteString("%{}")
 		} else {
-			sb.WriteString("%{?" + genName(r, used) + "}")
+			sb.WriteString("%{?" + genDissectName(r, used) + "}")
 		}
 	}
 	pattern = sb.String()
